@@ -151,6 +151,10 @@ impl Response {
     pub fn serialize<const N: usize>(&self, buffer: &mut Vec<u8, N>) {
         buffer.resize_default(buffer.capacity()).ok();
         let (status, data) = buffer.split_first_mut().unwrap();
+        // A response without any member is sent as the status byte alone, so it fits a one-byte
+        // buffer; give the encoder room for the intermediate empty map (0xA0) in that case.
+        let mut scratch = [0u8; 1];
+        let data: &mut [u8] = if data.is_empty() { &mut scratch } else { data };
         use cbor_smol::cbor_serialize;
         use Response::*;
         let outcome = match self {
